@@ -507,6 +507,16 @@ def gen_cases(tier, seed):
     cases = []
     seen = set()
     nbase = 0
+    # fixed members of the fractional group (every seed, both tiers): non-integer subscripts through chempy's
+    # own formula parser; exact answer 171 H3.5 + 70 HO2Cl3.5 -> 56 HO2.5 + 245 H2.5Cl
+    anchor = dict(species=[["H3.5", [[1, 3.5]]], ["HO2Cl3.5", [[1, 1], [8, 2], [17, 3.5]]],
+                           ["HO2.5", [[1, 1], [8, 2.5]]], ["H2.5Cl", [[1, 2.5], [17, 1]]]],
+                  reac=["H3.5", "HO2Cl3.5"], prod=["HO2.5", "H2.5Cl"], kind="dim1_signpattern",
+                  container="list", substances="none")
+    for mode in MODES:
+        c = dict(anchor, mode=mode)
+        seen.add(_canon(c))
+        cases.append(c)
     while len(cases) < target and nbase < target * 5:
         nbase += 1
         formula = rnd.random() < 0.45
